@@ -13,6 +13,9 @@ import (
 	"fmt"
 	"io"
 	"math/rand"
+	"net"
+	"os"
+	"path/filepath"
 	"os/exec"
 	"strings"
 	"syscall"
@@ -245,6 +248,65 @@ type respDesc struct {
 type respRunner struct {
 	c     *corr.Ctx
 	child *respChild
+	bin   string
+	gw    *gateway // the real server (embedded backend): every input also goes through handleConn
+}
+
+// connRun sends input on a fresh connection of the real gateway, closes the
+// sending side and reads until the server closes; then a second connection
+// must still get +PONG for PING. A dead gateway is restarted for the next case.
+func (rr *respRunner) connRun(input []byte) (now int64, got []byte, clean, alive bool, why string) {
+	now = time.Now().Unix()
+	if rr.gw == nil {
+		g, err := startGateway(rr.bin, rr.c.Out)
+		if err != nil {
+			return now, nil, false, false, "cannot start gateway: " + err.Error()
+		}
+		rr.gw = g
+	}
+	cn, err := net.DialTimeout("tcp", rr.gw.addr, 2*time.Second)
+	if err == nil {
+		go func() {
+			_ = cn.SetWriteDeadline(time.Now().Add(20 * time.Second))
+			_, _ = cn.Write(input)
+			if tc, ok := cn.(*net.TCPConn); ok {
+				_ = tc.CloseWrite()
+			}
+		}()
+		_ = cn.SetReadDeadline(time.Now().Add(20 * time.Second))
+		var rerr error
+		got, rerr = io.ReadAll(cn)
+		clean = rerr == nil
+		if rerr != nil {
+			why = "read: " + rerr.Error()
+		}
+		cn.Close()
+	} else {
+		why = "dial: " + err.Error()
+	}
+	// liveness: a new connection answers PING
+	for attempt := 0; attempt < 2 && !alive; attempt++ {
+		if p, err := rr.gw.dial(); err == nil {
+			rep, err := p.do([]byte("PING"))
+			p.close()
+			alive = err == nil && string(rep) == "+PONG\r\n"
+		} else {
+			time.Sleep(100 * time.Millisecond)
+		}
+	}
+	if !alive {
+		lg, _ := os.ReadFile(filepath.Join(rr.gw.dir, "gateway.log"))
+		if i := strings.Index(string(lg), "panic"); i >= 0 {
+			lg = lg[i:]
+		}
+		if len(lg) > 300 {
+			lg = lg[:300]
+		}
+		why += " gateway dead: " + string(lg)
+		rr.gw.stop()
+		rr.gw = nil
+	}
+	return now, got, clean, alive, why
 }
 
 func hexArgs(args [][]byte) []*string {
@@ -316,11 +378,22 @@ func (rr *respRunner) run(gen string, input []byte, fr respFrame) {
 	if res.Alloc > 65536 {
 		c.Count("alloc_over_64k")
 	}
-	term := fmt.Sprintf("Cs %s %s (%s)", coqPieces(input), frame, ob)
+	now, got, clean, alive, cwhy := rr.connRun(input)
+	if !alive {
+		c.Count("conn_gateway_died")
+	}
+	if !clean {
+		c.Count("conn_reset")
+	}
+	if len(got) > 0 {
+		c.Count("conn_replied")
+	}
+	term := fmt.Sprintf("Cc %s %s (%s) %d %s %s %s", coqPieces(input), frame, ob, now, coqPieces(got), corr.Bool(clean), corr.Bool(alive))
 	obs := ob
 	if why != "" {
 		obs += " // " + why
 	}
+	obs += fmt.Sprintf(" // conn: %q clean=%v alive=%v %s", truncate(got, 200), clean, alive, cwhy)
 	c.Emit(corr.Case{Coq: term, Nontrivial: len(input) > 0,
 		Desc: respDesc{Input: compress(input), Frame: fr, Gen: gen, Obs: obs}})
 }
@@ -413,13 +486,14 @@ func plainWord(r *rand.Rand) []byte {
 
 func runResp(c *corr.Ctx) error {
 	c.Meta("run_module", "RunResp")
-	c.Meta("rule", "every byte string of length <=4 (quick) / <=5 (thorough) over {* $ 0 1 - CR LF a}; valid arrays (nil/empty/binary bulks, up to 5000 elements); bulks of 64/128/256 KiB +-1 and larger delivered in full with non-uniform content, parsed bytes compared with the bytes sent with every truncation; 46 declared lengths (negative, zero, signs, limits +-1, 2^31-1, 2^40, 2^63-1, overflow, malformed) in multibulk and bulk position; terminator faults at every CRLF; inline commands with 25 ASCII/Unicode separators and long lines; single-byte mutations; random garbage. Observed per case: outcome class, arguments, bytes consumed, TotalAlloc delta. non-trivial = non-empty input; distinct by Gallina term")
+	c.Meta("rule", "every byte string of length <=4 (quick) / <=5 (thorough) over {* $ 0 1 - CR LF a}; valid arrays (nil/empty/binary bulks, up to 5000 elements); bulks of 64/128/256 KiB +-1 and larger delivered in full with non-uniform content, parsed bytes compared with the bytes sent with every truncation; 46 declared lengths (negative, zero, signs, limits +-1, 2^31-1, 2^40, 2^63-1, overflow, malformed) in multibulk and bulk position; terminator faults at every CRLF; inline commands with 25 ASCII/Unicode separators and long lines; single-byte mutations; random garbage. requests without arguments (*0, *-1, blank and empty inline lines) alone, repeated and before valid commands; pipelines with trailing partial frames. Observed per case: outcome class, arguments, bytes consumed, TotalAlloc delta of parseRESP in a child process; and, for the same bytes sent over TCP to the real gateway (handleConn), the whole reply stream until the server closes plus whether a new connection still answers PING. non-trivial = non-empty input; distinct by Gallina term")
 	bin, err := buildGateway(c.Out)
 	if err != nil {
 		return err
 	}
-	rr := &respRunner{c: c, child: &respChild{bin: bin}}
+	rr := &respRunner{c: c, child: &respChild{bin: bin}, bin: bin}
 	defer rr.child.kill()
+	defer func() { rr.gw.stop() }()
 	r := c.Rng
 
 	if c.Replay != "" {
@@ -459,6 +533,25 @@ func runResp(c *corr.Ctx) error {
 	rec(nil)
 	c.Meta("exhaustive", true)
 	c.Meta("exhaustive_scope", fmt.Sprintf("all %d byte strings of length <= %d over the alphabet {* $ 0 1 - CR LF a}", nEx, maxLen))
+
+	// 1b. requests without arguments (empty array, nil array, blank inline lines,
+	// empty lines), alone, repeated, and followed by a valid command
+	ping := encArray([][]byte{[]byte("PING")})
+	for _, e := range []string{"*0\r\n", "*-1\r\n", "\r\n", " \r\n", "  \t \r\n", "\t\r\n", "\xc2\xa0\r\n", "\xe3\x80\x80 \r\n", "*00\r\n", "*-0\r\n", "*+0\r\n"} {
+		for _, tail := range [][]byte{nil, ping, []byte("PING\r\n"), []byte(e), append([]byte(e), ping...), []byte("ECHO hi\r\nQUIT\r\nPING\r\n")} {
+			rr.run("no_arguments", append([]byte(e), tail...), respFrame{})
+			rr.run("no_arguments", append(append([]byte(nil), ping...), append([]byte(e), tail...)...), respFrame{})
+		}
+	}
+	// pipelines of valid commands, with and without a trailing partial frame
+	for _, tail := range []string{"", "PIN", "*1\r\n$4\r\nPI", "*2\r\n$4\r\nECHO\r\n", "\n", "*x\r\n"} {
+		var b []byte
+		for i := 0; i < 12; i++ {
+			b = append(b, encArray([][]byte{[]byte("ECHO"), []byte(fmt.Sprintf("m%d", i))})...)
+			b = append(b, "PING\r\n"...)
+		}
+		rr.run("pipeline", append(b, tail...), respFrame{})
+	}
 
 	// 2. declared lengths in both positions
 	for _, d := range declaredLengths {
@@ -616,6 +709,13 @@ func patternBytes(n, salt int) []byte {
 		}
 	}
 	return out
+}
+
+func truncate(b []byte, n int) []byte {
+	if len(b) > n {
+		return b[:n]
+	}
+	return b
 }
 
 func allIndex(b, sep []byte) []int {
